@@ -132,7 +132,7 @@ class C17(Check):
             yield "replace %s %s %s" % (hx("b"), hx("$" + ch), hx("abc")), "replace-meta"
             yield "split %s %s" % (hx(ch), hx("a" + ch + "b" + ch + "c")), "split-meta"
         # very long inputs: many occurrences, overlapping patterns, replacement containing the pattern
-        for n in ([20000] if tier == "quick" else [20000, 200000]):
+        for n in ([20000] if tier == "quick" else [20000, 60000]):
             yield "replace %s %s %s" % (hx("aa"), hx("a"), hx("a" * n)), "long"
             yield "replace %s %s %s" % (hx("a"), hx("aa"), hx("ab" * (n // 2))), "long"
             yield "replace %s %s %s" % (hx("ab"), hx("xaby"), hx("ab" * (n // 2))), "long"
